@@ -20,6 +20,8 @@ the calls whose C++ preconditions hold (the model returns `.error` otherwise).
 import SharkVerif.Lemmas.BatchArith
 import SharkVerif.Lemmas.Dataset
 import SharkVerif.Lemmas.IterAdvance
+import SharkVerif.Lemmas.Subset
+import SharkVerif.Lemmas.View
 namespace SharkVerif.C03
 open SharkVerif.CheckedNat SharkVerif.Gen.BatchArith SharkVerif.BatchArith SharkVerif.Dataset
 
@@ -478,6 +480,120 @@ theorem splitScan_spec (P : List Nat) : ∀ (batchPos batchStart k bp bs : Nat),
       simp only [Option.some.injEq, Prod.mk.injEq] at h
       obtain ⟨rfl, rfl⟩ := h
       exact ⟨0, s, rfl, by simp, by simp, by omega, Or.inr rfl⟩
+
+theorem zip_map_fst_snd' {α β : Type} (l : List (α × β)) : List.zip (l.map (·.1)) (l.map (·.2)) = l := by
+  induction l with
+  | nil => rfl
+  | cons a l ih => simp [ih]
+
+/-! ### indexed subsets and complements -/
+
+/-- the elements of `indexedSubset(indices)` are the listed batches in the listed order -/
+theorem indexedSubset_elements (d d' : Data ε) (idx : List Nat) (h : d.indexedSubset idx = .ok d') :
+    d'.flat = idx.flatMap (fun i => d.batches.getD i []) ∧ ∀ i ∈ idx, i < d.numberOfBatches :=
+  indexedSubset_flat d d' idx h
+
+/-- `indexedSubset(indices, subset, complement)`: for a duplicate-free index set, subset and complement
+together hold exactly the elements of the dataset (a permutation: nothing lost, nothing duplicated) -/
+theorem indexedSubset_complement_perm (d s c : Data ε) (idx : List Nat) (hnd : idx.Nodup)
+    (h : d.indexedSubsetCompl idx = .ok (s, c)) : (s.flat ++ c.flat).Perm d.flat := by
+  simp only [Data.indexedSubsetCompl, bind_ok, pure_ok, Prod.mk.injEq] at h
+  obtain ⟨s', hs, c', hc, rfl, rfl⟩ := h
+  exact subset_complement_elements d s' c' idx hnd hs hc
+
+/-- LabeledData::indexedSubset applies the same batch indices to inputs and labels: well-formedness is
+kept and batch j of the result pairs input batch `idx[j]` with label batch `idx[j]` -/
+theorem indexedSubset_pairs (d d' : LabeledData ι κ) (idx : List Nat) (hd : WF d) (h : d.indexedSubset idx = .ok d') :
+    WF d' ∧ d'.inputs.batches.map some = idx.map (d.inputs.batches[·]?) ∧
+      d'.labels.batches.map some = idx.map (d.labels.batches[·]?) ∧ pairs d' = d'.flat := by
+  simp only [LabeledData.indexedSubset, bind_ok] at h
+  obtain ⟨i, hi, l, hl, hmk⟩ := h
+  simp only [LabeledData.mk'] at hmk
+  split at hmk
+  · simp only [Except.ok.injEq] at hmk; subst hmk
+    have h1 := (indexedSubset_batches _ _ _ hi).1
+    have h2 := (indexedSubset_batches _ _ _ hl).1
+    have hw : WF (⟨i, l⟩ : LabeledData ι κ) := by
+      show i.partitioning = l.partitioning
+      have e1 : i.partitioning.map some = idx.map (d.inputs.partitioning[·]?) := by
+        have := congrArg (List.map (Option.map List.length)) h1
+        simpa [Data.partitioning, List.map_map, Function.comp_def] using this
+      have e2 : l.partitioning.map some = idx.map (d.labels.partitioning[·]?) := by
+        have := congrArg (List.map (Option.map List.length)) h2
+        simpa [Data.partitioning, List.map_map, Function.comp_def] using this
+      rw [hd] at e1
+      have := e1.trans e2.symm
+      have h4 := congrArg (List.filterMap id) this
+      simpa [List.filterMap_map] using h4
+    exact ⟨hw, h1, h2, (flat_eq_pairs _ hw).symm⟩
+  · simp at hmk
+
+/-! ### DataView -/
+
+/-- `DataView(dataset)` lists every (input, label) pair of a well-formed dataset, in order -/
+theorem view_lists_dataset (d : LabeledData ι κ) (h : WF d) : (View.ofDataset d).elements = (pairs d).map some := by
+  rw [view_elements d h, flat_eq_pairs d h]
+
+/-- **view_subset_comp**: element j of `subset(view, idx)` is element `idx[j]` of the view; hence a subset of a
+subset is the subset by the composed index vector -/
+theorem view_subset_comp (v w u : View ι κ) (a b : List Nat) (h1 : v.subset a = .ok w) (h2 : w.subset b = .ok u) :
+    w.elements = a.map (fun i => (v.elements[i]?).join) ∧
+    u.elements = b.map (fun j => ((a[j]?).bind fun i => v.elements[i]?).join) := by
+  obtain ⟨hw, _, _⟩ := subset_elements v w a h1
+  obtain ⟨hu, _, _⟩ := subset_elements w u b h2
+  refine ⟨hw, ?_⟩
+  rw [hu, hw]
+  apply List.map_congr_left
+  intro j _
+  simp only [List.getElem?_map]
+  cases a[j]? <;> simp
+
+theorem sum_replicate' (k x : Nat) : (List.replicate k x).sum = k * x := by
+  induction k with
+  | zero => simp
+  | succ k ih => simp [List.replicate_succ, ih, Nat.succ_mul, Nat.add_comm]
+
+theorem initializeBatchSizes_sum (n bs : Nat) (l : List Nat) (h : initializeBatchSizes n bs = some l) : l.sum = n := by
+  unfold initializeBatchSizes at h
+  by_cases hc : bs = 0 ∨ bs > n
+  · rw [if_pos hc] at h; simp only [Option.some.injEq] at h; simp [← h]
+  · have hb0 : bs ≠ 0 := by omega
+    rw [if_neg hc] at h
+    simp only [if_false, cdiv, cmod, hb0, Option.bind_eq_bind, Option.bind_some, Option.bind_eq_some_iff, csub] at h
+    obtain ⟨full, hfull, last, hlast, hl⟩ := h
+    by_cases h1 : 1 ≤ n / bs + (if n % bs > 0 then 1 else 0)
+    · simp only [h1, if_true, Option.some.injEq] at hfull
+      by_cases h2 : full * bs ≤ n
+      · simp only [h2, if_true, Option.some.injEq] at hlast
+        simp only [Option.pure_def, Option.some.injEq] at hl
+        subst hl
+        simp [List.sum_append, sum_replicate']
+        omega
+      · simp [h2] at hlast
+    · simp [h1] at hfull
+
+/-- **toDataset_view**: `toDataset(view, batchSize)` of a non-empty view is a well-formed dataset whose
+(input, label) sequence is exactly the view's element sequence (so `toDataset(subset(toView(d), idx))` is the
+gather of `d` by `idx`), in batches whose sizes sum to the view size -/
+theorem toDataset_view (v : View ι κ) (bs : Nat) (d' : LabeledData ι κ) (hs : v.size ≠ 0)
+    (h : v.toDataset bs = .ok d') :
+    WF d' ∧ (pairs d').map some = v.elements ∧ d'.numberOfElements = v.size := by
+  simp only [View.toDataset, hs, if_false, bind_ok, ofOpt_ok, pure_ok] at h
+  obtain ⟨els, hels, sizes, hsz, rfl⟩ := h
+  have hsum := initializeBatchSizes_sum _ _ _ hsz
+  have hel := mapM_id_some _ _ hels
+  have hlen : els.length = v.size := by
+    have := congrArg List.length hel
+    simpa [View.elements] using this.symm
+  have h1 : sizes.sum = (els.map (·.1)).length := by simp [hsum, hlen]
+  have h2 : sizes.sum = (els.map (·.2)).length := by simp [hsum, hlen]
+  refine ⟨?_, ?_, ?_⟩
+  · show (splitBySizes _ sizes).map List.length = (splitBySizes _ sizes).map List.length
+    rw [splitBySizes_lengths _ _ (Nat.le_of_eq h1), splitBySizes_lengths _ _ (Nat.le_of_eq h2)]
+  · simp only [pairs, Data.flat]
+    rw [splitBySizes_flatten _ _ h1, splitBySizes_flatten _ _ h2, zip_map_fst_snd', hel]
+  · simp only [LabeledData.numberOfElements, Data.numberOfElements, Data.partitioning]
+    rw [splitBySizes_lengths _ _ (Nat.le_of_eq h1), hsum]
 
 /-! ## E. arbitrary operation histories -/
 
